@@ -7,7 +7,20 @@ s = open(p).read()
 tab = subprocess.check_output(["/venv/bin/python", os.path.join(V, "tools", "seeded_table.py")], text=True)
 rows = [l for l in tab.splitlines() if l.startswith("| C")]
 caught = sum("**caught**" in l for l in rows)
-head = f"{len(rows)} changes kept; {caught} reported by the registered checks as they stand now, {len(rows) - caught} not (see the rows marked *missed*).\n\n"
+import glob, json
+waves = {}
+for mf in sorted(glob.glob(os.path.join(V, "seeded", "*", "meta.json"))):
+    m = json.load(open(mf))
+    n = int(m["name"].split("-")[1].rstrip("b"))
+    w = (n + 1) // 2
+    hist = [e.get("detected") for e in m.get("earlier_runs", [])]
+    first = hist[0] if hist else m.get("detected")
+    d = waves.setdefault(w, [0, 0, 0])
+    d[0] += 1
+    d[1] += bool(first)
+    d[2] += bool(m.get("detected"))
+wave_txt = "; ".join(f"wave {w}: {d[0]} changes, {d[1]} reported by the checks as they stood when the change arrived, {d[2]} now" for w, d in sorted(waves.items()))
+head = f"Per wave - {wave_txt}.\n\n{len(rows)} changes kept; {caught} reported by the registered checks as they stand now, {len(rows) - caught} not (see the rows marked *missed*).\n\n"
 a = s.index("<!-- SEEDED-TABLE-BEGIN -->") + len("<!-- SEEDED-TABLE-BEGIN -->")
 b = s.index("<!-- SEEDED-TABLE-END -->")
 s = s[:a] + "\n" + head + tab + "\n" + s[b:]
